@@ -5,12 +5,15 @@ from checks.generic import standard, compile_gen, first_index, COMMON_TRUSTED
 PROPS = ["c20_published", "c20_published_sites", "c20_site_verdict_needed", "c20_issue_delivered",
          "c20_nonblocking", "c20_order", "c20_order_complete", "c20_lagging_reader_complete",
          "c20_roundtrip", "c20_expire", "c20_expire_only_old", "c20_history", "c20_loop_request", "c20_loop_saved",
-         "c20_old_aws_refuted", "c20_old_roundtrip_refuted", "c20_old_expire_refuted"]
+         "c20_old_aws_refuted", "c20_old_roundtrip_refuted", "c20_old_expire_refuted",
+         "c20_stalled_subscriber", "c20_waiting_fanout_refuted", "c20_save_atomic", "c20_saves_last_renamed",
+         "c20_backup_rename_refuted", "c20_startup_name_only", "c20_startup_leftover"]
 
 TRUSTED = [
-    "encoding/gob, bufio and Dominator fsutil.CreateRenamingWriter between saveEvents and loadEvents (run for real on every save/reload, not modelled)",
+    "encoding/gob and bufio between saveEvents and loadEvents (run for real on every save/reload; the model has 'a complete document of generation g' or 'something the decoder rejects'); Dominator fsutil.CreateRenamingWriter/Close is modelled as its list of file operations (open f~, write, fsync, close, rename, remove) and run for real with injected faults; the file system itself is names -> contents with atomic rename (no directory fsync, no delayed allocation)",
     "Go channel semantics: a buffered channel of capacity k accepts a non-blocking send iff it holds fewer than k elements (the model's try_send); the Go scheduler / memory model",
-    "harness/eventnotifier/verif_export.go: registers a subscriber channel with the three statements of handleConnection (one history also uses the real CONNECT stream); TestVerif_C20S uses only the exported ServeHTTP with a hijackable writer over net.Pipe",
+    "harness/eventnotifier/verif_export.go: registers a subscriber channel as handleConnection does, through reflection on the transmitChannels map (one history also uses the real CONNECT stream); TestVerif_C20S uses only the exported ServeHTTP with a hijackable writer over net.Pipe and the exported Publish* methods",
+    "the 4 s watchdog around every publishing operation in TestVerif_C20S stands for 'does not return' (8 s in TestVerif_C20)",
     "the recorder harness sets CreateTime of the event just recorded (recordEvent stamps time.Now() itself); expiry and load read the real clock",
     "tools/extract c20.go: signing-site table (handler reachability by name, lexical order of publish and response) and notifier send table",
     "fake STS endpoint in front of the cloud-role path",
@@ -31,6 +34,22 @@ def corr(ctx, res, name, label, idxfile):
             first = lines[i][:3000]
     ctx.broken.append(("correspondence", name, {"label": label, "first_mismatch": first, "indices": (mism or "")[:400]}))
 
+def violating(ctx, res, name, klass, idxfile, oracle):
+    """round-2 addendum: mismatching cases whose OBSERVATION violates the property's own predicate (evaluated in
+    Coq) become oracle hits with the case as the failing input"""
+    import re
+    val = res.get(name)
+    if not val or val == "[]":
+        return
+    lines = []
+    p = os.path.join(ctx.work, idxfile)
+    if os.path.exists(p):
+        lines = open(p).read().split("\n")
+    for i in [int(x) for x in re.findall(r"(\d+)", val)][:20]:
+        case = lines[i] if i < len(lines) else "case #%d" % i
+        ctx.hits.append({"key": "C20:model-oracle:%s" % klass, "oracle": oracle, "what": case[:600],
+                         "case": {"index": i, "line": case[:3000]}, "kind": "history"})
+
 def run(ctx):
     ctx.audit("Props.C20", PROPS)
     ctx.extract()
@@ -45,7 +64,7 @@ def run(ctx):
         f1 = ex.submit(ctx.go_harness, "cmd/keymasterd", "TestVerif_C20",
                        ["kmd/common.go", "kmd/creds.go", "kmd/consts.go", "kmd/c20.go", os.path.join(ctx.work, "gen", "mux_gen.go")],
                        extra_overlay={os.path.join(core.REPO, "keymasterd", "eventnotifier", "zz_verif_export.go"): export})
-        f2 = ex.submit(ctx.go_harness, "eventmon/eventrecorder", "TestVerif_C20R", [base, "eventrecorder/c20r.go"])
+        f2 = ex.submit(ctx.go_harness, "eventmon/eventrecorder", "TestVerif_C20R", [base, "eventrecorder/c20r.go", "eventrecorder/c20f.go"])
         ok, result, log = f1.result()
         rec_ok, rec_result, rec_log = f2.result()
         s_ok, s_result, s_log = f3.result()
@@ -62,15 +81,30 @@ def run(ctx):
                          "recorder (" + n + "): expiry flags and per-user lists after every save/reload and at the end = model (%s operations)", "c20r_ncases"))
     if s_result is not None:
         jobs.append(("CasesC20S.v", "c20s_mismatches", "CasesC20S.idx",
-                     "subscribers on the production connection path with every lag 0..15: queue never full, stream handed to each = the published sequence (%s publishes and reads)", "c20s_ncases"))
+                     "subscribers on the production connection path with every lag 0..15 and two that stop reading: no operation blocks, queue of a reader never full, stream handed to each reader = the published sequence, to a stalled one = what the model's queue accepted (%s publishes and reads)", "c20s_ncases"))
     if rec_result is not None:
         jobs.append(("CasesC20L.v", "c20l_mismatches", "CasesC20L.idx",
                      "recorder event loop: every history answer and every saved file = model (%s scenarios)", "c20l_ncases"))
+    if rec_result is not None and os.path.exists(os.path.join(ctx.work, "CasesC20F.v")):
+        jobs.append(("CasesC20F.v", "c20f_mismatches", "CasesC20F.idx",
+                     "recorder save with a crash point or a failing file operation, then a restart through New(): what it comes back with = what the model's save with the same crash / fault index leaves under the history name (%s saves)", "c20f_ncases"))
     with ThreadPoolExecutor(max_workers=4) as ex:
         outs = list(ex.map(lambda j: ctx.eval_cases(os.path.join(ctx.work, j[0]), "c20_vs_model:" + j[0]), jobs))
     for j, res in zip(jobs, outs):
         if res is not None:
             corr(ctx, res, j[1], j[3] % res.get(j[4], "?"), j[2])
+            if j[1] == "c20r_mismatches":
+                violating(ctx, res, "c20r_violating", "reload", j[2],
+                          "property predicate evaluated in Coq on the observed dumps: a save and restart comes back with the entries of the state observed before it that are within the retention, in the same order")
+            if j[1] == "c20f_mismatches":
+                violating(ctx, res, "c20f_violating", "history-lost", j[2],
+                          "property predicate evaluated in Coq on the observed restart: with a previous generation on disk the recorder comes back with it or with the new one")
+                corr(ctx, res, "c20u_mismatches", "recorder start-up next to leftover files and on a damaged file: what New() comes back with = the model's start-up, which looks at the history file's own name only (%s directories)" % res.get("c20u_ncases", "?"), "CasesC20U.idx")
+                violating(ctx, res, "c20u_violating", "startup-leftover", "CasesC20U.idx",
+                          "property predicate evaluated in Coq on the observed start-up: a start on a good history file comes back with that history whatever lies next to it")
+            if j[1] == "c20s_mismatches":
+                violating(ctx, res, "c20s_violating", "stream", j[2],
+                          "property predicate evaluated in Coq on the observed streams: every operation returned, every healthy subscriber was handed exactly the published sequence, a stalled one a subsequence of it")
     ctx.assumptions = ["clock readings of one recorder never go backwards (hypothesis `monotone` of c20_history); the wall clock is later than 1970-02-01 (no uint64 wrap of now-31d)",
                        "subscriber identity: a detached channel stays in the model's list with live=false instead of being deleted from the map"]
     return ctx.finish("bin/build-coq; coqc Audit_Props_C20/Obl_C20/CasesC20/CasesC20R; go test -overlay TestVerif_C20 (cmd/keymasterd) TestVerif_C20R (eventmon/eventrecorder)",
